@@ -816,6 +816,8 @@ def _extract_fn(src, first, o, c, impl_info, rules, sections, opts, entry, repor
         out = '\n'.join(attrs) + '\n' + out
     entry['loops'] = len(loops)
     _finish(entry, src, s, e, piece, report)
+    entry['_consts_used'] = sorted({t.text for t in ftoks if t.kind == 'ident' and re.fullmatch(r'[A-Z][A-Z0-9_]{2,}', t.text)})
+    entry['_src'] = src
     return out
 
 
@@ -999,9 +1001,33 @@ def build_unit(template_path, out_path, report_path, defines=None):
             out.append(do_extract(ch[1], ch[2], report))
             out.append('// ---- end extracted ----')
     result = '\n'.join(out)
+    # constants of the same source file that an extracted function refers to but the unit does not define
+    # (e.g. a helper constant introduced next to the function) are extracted verbatim as well
+    extra = []
+    for it in report:
+        src = it.pop('_src', None)
+        for c in it.pop('_consts_used', []):
+            if src is None or re.search(r'\bconst\s+%s\b' % c, result) or any(c == x[0] for x in extra):
+                continue
+            try:
+                s0, e0 = find_simple_item(src, 'const', c)
+            except LostAnchor:
+                continue
+            extra.append((c, src.text[s0:e0], src.relpath, src.line_of(s0)))
+    if extra:
+        block = '\n'.join('// ---- auto-extracted const %s (%s:%d) ----\n%s' % (c, f, ln, t) for (c, t, f, ln) in extra)
+        # place right after the opening of the verus! block
+        k = result.find('verus! {')
+        k = result.find('\n', k) + 1
+        result = result[:k] + block + '\n' + result[k:]
+        for (c, t, f, ln) in extra:
+            report.append({'kind': 'const', 'file': f, 'name': c, 'rules_requested': ['auto'], 'line_start': ln, 'line_end': ln,
+                           'sha256': hashlib.sha256(t.encode()).hexdigest(), 'rewrites': [], 'ghost_insertions': []})
     os.makedirs(os.path.dirname(out_path), exist_ok=True)
     with open(out_path, 'w') as f:
         f.write(result)
+    for it in report:
+        it.pop('_src', None); it.pop('_consts_used', None)
     with open(report_path, 'w') as f:
         json.dump({'template': template_path, 'unit': out_path, 'items': report}, f, indent=1)
     return report
